@@ -192,9 +192,11 @@ GLM_FUNC_QUALIFIER glm_vec4 glm_vec4_mod(glm_vec4 x, glm_vec4 y)
 
 GLM_FUNC_QUALIFIER glm_vec4 glm_vec4_clamp(glm_vec4 v, glm_vec4 minVal, glm_vec4 maxVal)
 {
-	glm_vec4 const min0 = _mm_min_ps(v, maxVal);
-	glm_vec4 const max0 = _mm_max_ps(min0, minVal);
-	return max0;
+	// min(max(v, minVal), maxVal) as the scalar clamp, with the operand order of the scalar min and max:
+	// MAXPS/MINPS return their second operand when the operands are unordered, so a NaN in v stays a NaN
+	glm_vec4 const max0 = _mm_max_ps(minVal, v);
+	glm_vec4 const min0 = _mm_min_ps(maxVal, max0);
+	return min0;
 }
 
 GLM_FUNC_QUALIFIER glm_vec4 glm_vec4_mix(glm_vec4 v1, glm_vec4 v2, glm_vec4 a)
